@@ -50,7 +50,7 @@ def run(ctx):
             ctx.violation({"replicate": reps[i], "why": "node-to-node replication refused with the maintenance status"})
         else:
             ctx.notes.append("replicate in maintenance differs from the model (not a maintenance refusal): %r" % (reps[i],))
-    maint = [r for r in rs if r["scenario"] == "maintenance"]
+    maint = [r for r in rs if r["base"] == "maintenance"]
     ctx.cov.update({
         "programs": len({r["method"] for r in rs}) + 1,
         "evaluations": len(maint) + len(reps),
